@@ -71,7 +71,12 @@ Step(s, e, i) ==
     [] e.ev = "outofdomain" -> [s EXCEPT !.skip = TRUE]
     [] e.ev = "deliver" ->
          LET d == [pid |-> e.pid, cdg |-> e.cdg, u |-> e.u, kind |-> e.kind, fp_pusi |-> Get(e, "fp_pusi", TRUE)] IN
-         IF e.run = "clean" THEN [s EXCEPT !.clean = Append(s.clean, d)] ELSE [s EXCEPT !.fault = Append(s.fault, d)]
+         IF e.run = "clean" THEN [s EXCEPT !.clean = Append(s.clean, d)]
+         ELSE LET s1 == [s EXCEPT !.fault = Append(s.fault, d)] IN
+              \* a unit delivered from the faulted stream carries the first packet of the clean run's unit (a duplicate is dropped whole: its
+              \* header and adaptation field - a PCR stamped again - do not replace the original's); PES only: a duplicated table packet is
+              \* delivered a second time, with the duplicate as its first packet (13.4)
+              RepIf(~s.skip /\ e.kind = "pes" /\ ~Get(e, "fpsame", TRUE), s1, [prop |-> "C06", kind |-> "delivered-unit-first-packet-altered", trace |-> s.tr, at |-> i, pid |-> e.pid, u |-> e.u])
     [] e.ev = "eof" -> OnEOF(s, e, i)
     [] OTHER -> s
 
